@@ -120,29 +120,40 @@ Theorem C20_class_write_read : forall fuel bs v, Forall (fun b => b < 256) bs ->
 Proof. exact class_write_read. Qed.
 Print Assumptions C20_class_write_read.
 
-(* ---------- known finding F10: constant_pool_count with Long/Double entries ---------- *)
-(* known class: the pool holds a Long or a Double ([has_wide]); outside it the count written is
-   the JVMS one *)
-Theorem C20_pool_count_is_jvms : forall pool, has_wide pool = false -> N.of_nat (length pool) < 65535 ->
+(* ---------- constant pools with Long/Double entries (JVMS 4.4.5; former known finding F10) ---------- *)
+(* slots() of the generated table is 2 exactly for the structures tagged CONSTANT_Long (5) and
+   CONSTANT_Double (6) *)
+Theorem C20_slots_is_jvms : forall v, is_wide raw_env "CpInfo"%string v = jvms_is_wide v.
+Proof. exact slots_is_jvms. Qed.
+Print Assumptions C20_slots_is_jvms.
+
+(* for EVERY pool, long/double entries included, whose count fits the u2 item: the
+   constant_pool_count written is the JVMS one (number of indices taken up, plus one) *)
+Theorem C20_pool_count_is_jvms : forall pool, jvms_pool_count pool < 65536 ->
   written_pool_count pool = Ok (jvms_pool_count pool).
 Proof. exact pool_count_is_jvms. Qed.
 Print Assumptions C20_pool_count_is_jvms.
 
-Theorem C20_pool_count_refuted :
-  exists pool, has_wide pool = true /\ written_pool_count pool <> Ok (jvms_pool_count pool).
-Proof. exact pool_count_refuted. Qed.
-Print Assumptions C20_pool_count_refuted.
+(* non-vacuity of the above on a pool with a Long, a Utf8 and a Double: three entries, count 6 *)
+Theorem C20_pool_count_wide_example :
+  has_wide wide_witness = true /\ length wide_witness = 3%nat /\ written_pool_count wide_witness = Ok 6.
+Proof. exact pool_count_wide_example. Qed.
+Print Assumptions C20_pool_count_wide_example.
 
-(* the unrestricted statement — NOT proved (it is false today) *)
-Definition C20_pool_count_full : Prop := pool_count_full.
+(* class files whose pool holds 8-byte constants (a minimal one with one CONSTANT_Long, and javac's
+   WideConst.class with two longs and a double in front of the attribute names): well-formed per an
+   independent 4.4.5 walk, accepted by the strict reader to the last byte, inside the hypotheses of
+   read_write, reproduced byte for byte, length() exact *)
+Theorem C20_wide_examples : wide_examples.
+Proof. exact wide_examples_hold. Qed.
+Print Assumptions C20_wide_examples.
 
-(* reading side of F10: a class file whose pool is well-formed per JVMS 4.4.5 and holds a Long is
-   rejected by the reader *)
-Theorem C20_wide_class_refuted :
-  (exists rest, jvms_pool_of_class wide_class_bytes = Some (true, rest) /\ length rest = 14%nat)
-  /\ class_read raw_env wide_class_bytes = Err.
-Proof. exact wide_class_refuted. Qed.
-Print Assumptions C20_wide_class_refuted.
+(* a pool whose entries do not take up exactly constant_pool_count - 1 indices (a Long with one index
+   left) is refused by the reader, as by the independent walk *)
+Theorem C20_pool_overshoot_refused :
+  class_read raw_env overshoot_class_bytes = Err /\ jvms_pool_of_class overshoot_class_bytes = None.
+Proof. exact pool_overshoot_refused. Qed.
+Print Assumptions C20_pool_overshoot_refused.
 
 (* ---------- non-vacuity: the crate's own fixture and a javac class satisfy every hypothesis ---------- *)
 Theorem C20_examples : nonvacuous.
